@@ -635,7 +635,13 @@ class Interp:
         if isinstance(a, Val) and isinstance(b, Val):
             if a.term == b.term:
                 return a
-            return Val(mk("ite", cterm, a.term, b.term), space=a.space or b.space, pos_of=a.pos_of or b.pos_of)
+            j_ = Val(mk("ite", cterm, a.term, b.term), space=a.space or b.space, pos_of=a.pos_of or b.pos_of)
+            ax_a, ax_b = getattr(a, "axes", None), getattr(b, "axes", None)
+            if ax_a is not None and ax_b is not None and len(ax_a) == len(ax_b) and all(
+                    (x is None and y is None) or (x is not None and y is not None and x.sym == y.sym and x.n == y.n and x.off == y.off)
+                    for x, y in zip(ax_a, ax_b)):
+                j_.axes = list(ax_a)  # two index functions over the same grid: still an index function over that grid
+            return j_
         if isinstance(a, Arr) and isinstance(b, Arr) and len(a.cols) == len(b.cols):
             return Arr([mk("ite", cterm, x, y) for x, y in zip(a.cols, b.cols)], a.ndim, a.space or b.space)
         if isinstance(a, Rot) and isinstance(b, Rot):
